@@ -904,8 +904,34 @@ class Interp:
             return ('unk', 'promoted')
         return v
 
+    def _flagenums(self):
+        """two-variant enums of the current tree that stand for a bool field of the reference tree (see Facts.resolve_flags): their values
+        are carried as that bool"""
+        fe = getattr(self.facts, 'flagenums', None)
+        if fe is None:
+            self.facts.flagenums = {}
+            try:
+                self.facts.resolve_flags()
+            except Exception:
+                self.facts.flagenums = {}
+            fe = self.facts.flagenums
+        return fe
+
     def _binop(self, op, a, b):
         base = op.replace('WithOverflow', '').replace('Unchecked', '')
+        if base in ('Eq', 'Ne') and a[0] == 'discr' and b[0] == 'discr' and a[2] == b[2] and a[2] in self._flagenums():
+            # comparing the discriminants of two values of such an enum compares the bools they stand for
+            x, y = a[1], b[1]
+            if x[0] == 'c' and isinstance(x[1], bool):
+                x, y = y, x
+            if y[0] == 'c' and isinstance(y[1], bool):
+                return x if (y[1] is True) == (base == 'Eq') else _not(x)
+            return ('bin', base, x, y)
+        for p_, q_ in ((a, b), (b, a)):
+            if base in ('Eq', 'Ne') and p_[0] == 'discr' and p_[2] in self._flagenums() and q_[0] == 'c' and isinstance(q_[1], int) and not isinstance(q_[1], bool):
+                fe_ = self._flagenums()[p_[2]]
+                if q_[1] in (fe_['true_discr'], fe_['false_discr']):
+                    return p_[1] if (q_[1] == fe_['true_discr']) == (base == 'Eq') else _not(p_[1])
         if a[0] == 'c' and b[0] == 'c' and isinstance(a[1], (int, bool)) and isinstance(b[1], (int, bool)):
             x, y = a[1], b[1]
             try:
@@ -941,6 +967,9 @@ class Interp:
         if 'discr' in rv:
             v = self._read_lv(st, self._lvalue(st, frame, rv['discr']))
             adt = rv.get('adt')
+            fe = self._flagenums().get(adt)
+            if fe and v[0] == 'c' and isinstance(v[1], bool):
+                return C(fe['true_discr'] if v[1] else fe['false_discr'])
             if v[0] == 'agg' and v[1] == 'adt':
                 d = self.facts.discr_of_variant(v[2], v[3])
                 if d is not None:
@@ -949,6 +978,8 @@ class Interp:
         if 'agg' in rv:
             ops = [self._operand(st, frame, o, fn) for o in rv['ops']]
             kind = rv['agg']
+            if kind == 'adt' and rv.get('adt') in self._flagenums() and not ops:
+                return C(rv.get('variant') == self._flagenums()[rv['adt']]['true_variant'])
             if kind == 'adt':
                 names = rv.get('fields', [])
                 if len(ops) == 1 and rv['adt'] in getattr(self.facts, 'transparent', ()):
@@ -1021,6 +1052,12 @@ class Interp:
                 if k == 'switch':
                     v = self._operand(st, frame, t['on'], fn)
                     targets = [(int(x[0]), x[1]) for x in t['targets']]
+                    if v[0] == 'discr' and v[2] in self._flagenums():
+                        # `match flag { A => .., B => .. }` on an enum that stands for a bool: a decision on that bool
+                        fe_ = self._flagenums()[v[2]]
+                        v = v[1]
+                        targets = [((1 if val == fe_['true_discr'] else 0), tb) for val, tb in targets if val in (fe_['true_discr'], fe_['false_discr'])]
+                        t = dict(t, on_ty='bool')
                     if v[0] == 'c' and isinstance(v[1], (int, bool)):
                         iv = int(v[1])
                         nb = t['otherwise']
